@@ -134,6 +134,26 @@ def handleExport (o : Opts) (depth : Nat) (ts : List String) : Option String :=
     let (ops, ts) ← pList pOpset ts
     let (g, _) ← pGraph 64 ts
     pure (showRes (exportModel o depth ⟨gname, fname, ops, g⟩))
+  | "MF" :: ts => do
+    -- a model with model-local functions: `MF <gname> <fname|-> <nops> ops GRAPH <nfunc> (FUNC)*`
+    let (gname, ts) ← pStr ts
+    let (fname, ts) ← (match ts with
+      | "-" :: ts => some (none, ts)
+      | _ => (pStr ts).map (fun p => (some p.1, p.2)))
+    let (ops, ts) ← pList pOpset ts
+    let (g, ts) ← pGraph 64 ts
+    let pFunc : P FunctionP := fun ts => do
+      let (name, ts) ← pStr ts
+      let (dom, ts) ← pStr ts
+      let (ins, ts) ← pList pStr ts
+      let (outs, ts) ← pList pStr ts
+      let (attrs, ts) ← pList pStr ts
+      let (used, ts) ← pList pStr ts
+      let (ops, ts) ← pList pOpset ts
+      let (nodes, ts) ← pList (pNode 64) ts
+      pure (⟨name, dom, ins, outs, attrs, used, ops, nodes⟩, ts)
+    let (fs, _) ← pList pFunc ts
+    pure (showRes (exportModelF o depth fs ⟨gname, fname, ops, g⟩))
   | "F" :: ts => do
     let (name, ts) ← pStr ts
     let (dom, ts) ← pStr ts
@@ -157,7 +177,9 @@ def handleStraight (o : Opts) (ts : List String) : Option String :=
       | _ => (pStr ts).map (fun p => (some p.1, p.2)))
     let (ops, ts) ← pList pOpset ts
     let (g, _) ← pGraph 64 ts
-    let m : ModelP := ⟨gname, fname, ops, g⟩
+    let m0 : ModelP := ⟨gname, fname, ops, g⟩
+    -- initializers that are not skipped are leading Constant nodes (export_roundtrip_inits_partial)
+    let m : ModelP := if noneSkipped o m0.graph then m0.unfoldInits else m0
     if straightModel o m then
       let g' := progToGraph (exportStraight o m)
       let showNode (n : Node) : String :=
@@ -204,6 +226,14 @@ def handle (args : List String) : String :=
     (match parseOpts os, names.mapM unhex with
      | some o, some ns => comma ((renameTable o ns).map (·.2))
      | _, _ => "bad-op")
+  | "imports" :: fd :: rest =>
+    -- `imports <fundomain|-> <n> (<dom> <ver>)*` : the opset import lines of `export()`
+    (match (if fd == "-" then some none else (unhex fd).map some), pList pOpset rest with
+     | some d, some (imps, _) => importsLine imps d
+     | _, _ => "bad-op")
+  | ["tables"] =>
+    comma (opsTable.map (fun p => p.1 ++ ":" ++ p.2)) ++ " | " ++ comma (convTable.map (fun p => p.1 ++ ":" ++ p.2))
+      ++ " | " ++ comma kwlist
   | ["type", dt, sh] => handleType dt sh
   | "straight" :: os :: _ :: rest =>
     (match parseOpts os with
